@@ -6,6 +6,7 @@ import (
 	"math"
 	"testing"
 
+	"github.com/herohde/morlock/pkg/board"
 	"github.com/herohde/morlock/pkg/eval"
 	"github.com/herohde/morlock/pkg/search"
 	"pgregory.net/rapid"
@@ -138,7 +139,10 @@ var checkC13 = def("C13/window", func(c windowCase) error {
 	}
 	var ref *refsearch.Result
 	if c.Quiet {
-		if g.DrawNow() {
+		if g.DrawNow() || b.Result().Outcome == board.Draw {
+			// called directly on a board that carries a draw flag (now, or from an earlier
+			// position of the game) the quiescence search answers 0; inside a search such a
+			// node is never handed to it. The property leaves that value open: not judged.
 			stats.Case("C13/window", 0, false, "discarded-drawn-root")
 			return nil
 		}
@@ -257,7 +261,7 @@ func TestC13_window(t *testing.T) {
 // quietCase: full-window facts about the quiescence search.
 var checkC13Quiet = def("C13/quiescence", func(c searchCase) error {
 	b, g, cfg, err := setupSearch(c)
-	if err == errDiscard || (err == nil && g.DrawNow()) {
+	if err == errDiscard || (err == nil && (g.DrawNow() || b.Result().Outcome == board.Draw)) {
 		stats.Case("C13/quiescence", 0, false, "discarded-drawn-root")
 		return nil
 	}
